@@ -279,14 +279,14 @@ QUICK = {
     "C03": ["nest_index_unassigned_outin", "nest_index_unassigned_inout", "divide_contract_f64", "divide_ulp_f64", "dispatch_empty_subject", "dispatch_empty_clipping", "dispatch_empty_both"],
     "C04": ["int_classify_f32", "pi_point", "iter_order_n3", "iter_order_n4", "divide_contract_f64"],
     "C05": ["cf_relational_plain", "cf_relational_same", "cf_relational_diff", "fill_ids_2h_2h", "fill_ids_1_1h"],
-    "C06": ["dispatch_predicate", "dispatch_empty_subject", "dispatch_empty_clipping", "dispatch_empty_both", "dispatch_union_multi1_multi1", "cf_twins_nonvert_pp1", "pi_ov_h0s", "pi_ov_v2c"],
+    "C06": ["dispatch_predicate", "dispatch_empty_subject", "dispatch_empty_clipping", "dispatch_empty_both", "dispatch_union_multi1_multi1", "cf_twins_nonvert_pp1", "pi_ov_h0s"],
     "C07": ["dispatch_forward_poly_multi2", "dispatch_forward_multi2_multi1", "dispatch_forward_multi2_poly", "dispatch_named_methods", "fill_edge_f64", "fill_two_edges_f64", "fill_ids_2h_2h", "fill_ids_1_1h", "fill_ids_0_2", "fill_ids_2_0"],
     "C08": ["int_scale_f32"],
     "C10": ["nextafter_f64", "nextafter_f32", "int_classify_f32", "int_agree", "signed_area_fix_f32", "signed_area_fix_f64"],
-    "C13": ["fill_edge_f64", "fill_two_edges_f64", "fill_ids_2h_2h", "fill_ids_0_2", "divide_contract_f64", "pi_none", "pi_point", "pi_ov_h1c", "pi_ov_v6s", "pi_ov_f5s", "pi_ov_v7c", "sweep_protocol_mid_removed"],
+    "C13": ["fill_edge_f64", "fill_two_edges_f64", "fill_ids_2h_2h", "fill_ids_0_2", "divide_contract_f64", "pi_none", "pi_point", "pi_ov_v6s", "pi_ov_f5s", "sweep_protocol_mid_removed"],
     "C14": ["cf_base", "cf_step_same_nonvert", "cf_step_diff_nonvert", "cf_step_same_vert", "cf_step_diff_vert", "cf_twins_nonvert_pp0", "cf_twins_nonvert_pp1", "cf_twins_nonvert_pp2", "cf_twins_vert_pp0", "cf_twins_vert_pp1"],
     "C15": ["evord_ll_f64", "evord_lr_f64", "evord_rr_f64", "segord_pair_f32_n3"],
-    "C16": ["int_classify_f32", "int_swap_f32", "divide_contract_f64", "divide_ulp_f64", "pi_none", "pi_point", "pi_ov_v0c", "pi_ov_v3c", "pi_ov_v6s", "pi_ov_v8s", "pi_ov_h5s", "pi_ov_f6c", "pi_ov_r7c", "pi_ov_h5_same"],
+    "C16": ["int_classify_f32", "int_swap_f32", "divide_contract_f64", "divide_ulp_f64", "pi_none", "pi_point", "pi_ov_v6s", "pi_ov_f5s", "pi_ov_h5_same"],
     "C17": ["sp_ii_get", "sp_ii_next", "sp_ii_prev", "sp_ii_minmax", "sp_ii_shape", "sp_ii_iter", "sp_ir_get", "sp_ir_shape", "sp_getmut_index", "sp_extend", "sp_clear", "sp_set_insert_lookup", "sp_set_neighbours_remove",
             "sp_refstab3_left_chain", "sp_refstab3_right_chain", "sp_refstab3_zigzag_lr", "sp_refstab3_zigzag_rl", "sp_refstab3_balanced",
             "sp_remove3_left_chain", "sp_remove3_right_chain", "sp_remove3_zigzag_lr", "sp_remove3_zigzag_rl", "sp_remove3_balanced",
